@@ -202,7 +202,34 @@ func (g *Gen) hexDigits(n int) string {
 	return string(b)
 }
 
+// nearNamedHex: the hex value of a named colour, exactly or one step off in one channel
+// (catches wrong keys / values in the colour tables).
+func (g *Gen) nearNamedHex() string {
+	name := colorNames[g.r.Intn(len(colorNames))]
+	for g.r.Bool() && len(name) > 6 { // names shorter than #rrggbb are the ones worth rewriting to
+		name = colorNames[g.r.Intn(len(colorNames))]
+	}
+	v := named[name]
+	c := [3]int{int(v[0]), int(v[1]), int(v[2])}
+	if g.chance(2, 3) {
+		k := g.r.Intn(3)
+		if g.r.Bool() && c[k] < 255 {
+			c[k]++
+		} else if c[k] > 0 {
+			c[k]--
+		}
+	}
+	f := "#%02x%02x%02x"
+	if g.chance(1, 3) {
+		f = "#%02X%02X%02X"
+	}
+	return fmt.Sprintf(f, c[0], c[1], c[2])
+}
+
 func (g *Gen) hexColor() string {
+	if g.chance(1, 3) {
+		return g.nearNamedHex()
+	}
 	switch g.r.Intn(10) {
 	case 0:
 		return "#" + g.hexDigits(3)
@@ -447,6 +474,9 @@ func (g *Gen) dataURL() string {
 		uri = "DATA:" + uri[5:]
 	}
 	fn := g.pick("url", "url", "URL")
+	if g.known && g.chance(1, 10) { // N11: CSS escapes inside the data URI
+		return fn + "(\"data:text/plain," + g.pick("a\\\"b%20cdefghijklmnop", "a\\62 c%20cdefghijklmnop", "x\\)y%20zzzzzzzzzzzz") + "\")"
+	}
 	if g.r.Bool() {
 		q := g.pick("\"", "'")
 		if !g.known && strings.IndexByte(string(p), '\'') >= 0 {
